@@ -1,4 +1,5 @@
 import AFProofs.Lemmas.Scrape
+import AFProofs.Lemmas.SearchSig
 
 /-!
 # C11 — loading an output directory into a database loses nothing
@@ -21,7 +22,17 @@ runs write through a database session) — the definitions `AFDriver/C11.lean` e
   `grid_rows_agree_with_direct`, `same_number_of_rows`); iterating the aggregator yields the fits
   without a parent (`top_level_is_parentless`); `Fit.best_fit` is the first child of highest
   likelihood (`grid_best_is_highest`);
-* pinned behaviour (grid stored under its unique tag): `grid_parent_refuted_when_flag_off`.
+* pinned behaviour (grid stored under its unique tag): `grid_parent_refuted_when_flag_off`;
+* every search's persisted settings can be read back: `AF.SearchSig.call` (Python's keyword binding
+  through a chain of constructors) over the constructor chains regenerated from the source:
+  `absorbing_chain_accepts_any_keys`, `every_search_class_accepts_any_keys`,
+  `every_search_settings_read_back`, `every_identifying_setting_persisted`,
+  `candidates_are_get_arguments`, `multiple_values_has_a_cause`, pinned `Drawer`:
+  `pinned_drawer_settings_not_read_back`;
+* loses nothing, file by file: `AF.FitFiles` over the writer's file names and the reader's lookups
+  regenerated from the source: `every_written_file_reaches_its_accessor`,
+  `every_database_file_has_an_accessor`, `every_written_file_is_read_or_text`,
+  `user_file_reaches_database` (any name, any prefix, every kind), `reserved_array_names`.
 -/
 
 namespace AF.C11
@@ -378,5 +389,148 @@ example : WF witnessRuns := ⟨by decide, by decide, by decide, by decide⟩
 
 example : (places witnessRuns).map (·.fit.ident) = ["S.M0.t", "S.M1.t"] ∧
     (gridsOf witnessRuns).map GridRun.ident = ["G1", "G2"] := by decide
+
+/-! ## every search's persisted settings can be read back -/
+
+section settings
+open AF.SearchSig AF.Generated.C11
+
+/-- **A chain of constructors that each take `**kwargs`, have no parameter without default and give
+explicitly only keywords they name (or pop) accepts every set of keys** — whatever `search.json`
+holds, `cls(**arguments)` binds. -/
+theorem absorbing_chain_accepts_any_keys (chain : List Sig) (h : absorbing chain = true)
+    (keys : List String) : call chain keys = .ok :=
+  call_ok_of_absorbing chain h keys
+
+/-- every search class of the library (constructor chains regenerated from the source) is of that kind -/
+theorem every_search_class_accepts_any_keys : ∀ r ∈ searchSigTable, absorbing r.chain = true := by
+  decide +kernel
+
+/-- **Every search's persisted settings can be read back**: `from_dict(to_dict(search))`, i.e.
+`cls(**keys of search.json)`, binds for every search class. -/
+theorem every_search_settings_read_back : ∀ r ∈ searchSigTable, readBack r = .ok :=
+  fun r hr => call_ok_of_absorbing r.chain (every_search_class_accepts_any_keys r hr) (keysOf r)
+
+/-- every identifying setting of every search class is among the persisted keys (so the identifier
+can be recomputed from `search.json`) -/
+theorem every_identifying_setting_persisted : ∀ r ∈ searchSigTable, ∀ f ∈ r.idf, f ∈ keysOf r := by
+  decide +kernel
+
+/-- the model of `get_arguments` along the chain yields exactly the candidate keys extracted from
+the library's `get_arguments` for each search class -/
+theorem candidates_are_get_arguments : ∀ r ∈ searchSigTable,
+    (∀ k ∈ r.candidates, k ∈ getArguments r.chain) ∧ (∀ k ∈ getArguments r.chain, k ∈ r.candidates) := by
+  decide +kernel
+
+/-- a *multiple values for keyword argument* failure always has this cause: some constructor of the
+chain gives the keyword explicitly, passes `**kwargs` on, and neither names the keyword as a
+parameter nor pops it from `**kwargs` -/
+theorem multiple_values_has_a_cause (chain : List Sig) (keys : List String) (c k : String)
+    (h : call chain keys = .multiple c k) :
+    ∃ s ∈ chain, s.forwards = true ∧ k ∈ s.explicit ∧ s.params.contains k = false ∧
+      s.dropped.contains k = false :=
+  multiple_has_witness chain keys c k h
+
+/-- **Refutation for the pinned commit**: the pinned `Drawer` persists `number_of_cores`, gives it
+explicitly and passes it on in `**kwargs` as well: its `search.json` cannot be read back; popping
+the key (the repair) makes the same keys bind. -/
+theorem pinned_drawer_settings_not_read_back :
+    readBack pinnedDrawer = .multiple "NonLinearSearch" "number_of_cores" ∧
+    "number_of_cores" ∈ keysOf pinnedDrawer ∧
+    call (pinnedDrawer.chain.map fun s => if s.cls == "Drawer" then { s with dropped := ["number_of_cores"] } else s)
+      (keysOf pinnedDrawer) = .ok := by
+  decide +kernel
+
+example : ∃ r ∈ searchSigTable, r.cls = "DynestyStatic" ∧ r.chain.length ≥ 4 ∧ "nlive" ∈ keysOf r ∧
+    "session" ∉ keysOf r := by decide +kernel
+
+example : absorbing pinnedDrawer.chain = false := by decide +kernel
+
+example : call [⟨"K", ["a"], [], false, [], false, []⟩] ["a", "b"] = .unexpected "K" "b" ∧
+    call [⟨"K", ["a", "b"], ["b"], true, [], false, []⟩] ["a"] = .missing "K" "b" := by decide +kernel
+
+end settings
+
+/-! ## loses nothing, file by file -/
+
+section files
+open AF.FitFiles AF.Generated.C11
+
+/-- **Every file the writer produces is read by the accessor its content belongs to**: over the
+writer's files and the reader's lookups regenerated from the source — `metadata` makes the directory
+a search output, `search.json` / `model.json` / `info.json` are read as search, model and info,
+`samples.csv` + `samples_info.json` as samples (also the latent ones), `.completed`,
+`.parent_identifier`, `.is_grid_search` as the flags, user json / pickle / csv / fits files by the
+accessor of their kind, files of `analyses/analysis_i` through the child analyses. A writer / reader
+name mismatch makes this fail. -/
+theorem every_written_file_reaches_its_accessor :
+    ∀ w ∈ writerFiles, ∀ c ∈ mustReach w, c ∈ consumers readerLookups w.file := by
+  decide +kernel
+
+/-- the requirement is stated for every file written below a sub-folder (`files/`, `analyses/`) -/
+theorem every_database_file_has_an_accessor : ∀ w ∈ writerFiles, w.file.dir ≠ [] → mustReach w ≠ [] := by
+  decide +kernel
+
+/-- a written file no accessor looks at is a text rendering (or the `.identifier` the id is recomputed
+instead of, C07) -/
+theorem every_written_file_is_read_or_text :
+    ∀ w ∈ writerFiles, consumers readerLookups w.file ≠ [] ∨ w.file ∈ textOnly := by
+  decide +kernel
+
+/-- **Any user file reaches the database under its dotted name**: for every kind (json, pickle, csv,
+fits), every prefix (folders below `files/`) and every name, the file the writer puts it in is
+collected by the reader accessor of that kind, under the name `prefix.….name`. -/
+theorem user_file_reaches_database (k : FitFiles.Kind) (pre : List String) (name : String) :
+    ∃ f, pathFor writerFiles k pre name = some f ∧ k.accessor ∈ consumers readerLookups f ∧
+      outputName f = ".".intercalate (pre ++ [name]) := by
+  cases k
+  · have hp : writerPlace writerFiles .json = some (["files"], ".json") := by decide +kernel
+    refine ⟨⟨["files"] ++ pre, name, ".json"⟩, by simp [pathFor, hp], ?_, by simp [outputName]⟩
+    apply mem_consumers_of_direct
+    have hl : (⟨"jsons", "rglob", ⟨["files"], "", ".json"⟩⟩ : Lookup) ∈ readerLookups := by decide +kernel
+    exact mem_directConsumers hl (by simp [hits, isPrefix])
+  · have hp : writerPlace writerFiles .pickle = some (["files"], ".pickle") := by decide +kernel
+    refine ⟨⟨["files"] ++ pre, name, ".pickle"⟩, by simp [pathFor, hp], ?_, by simp [outputName]⟩
+    apply mem_consumers_of_direct
+    have hl : (⟨"pickles", "rglob", ⟨["files"], "", ".pickle"⟩⟩ : Lookup) ∈ readerLookups := by decide +kernel
+    exact mem_directConsumers hl (by simp [hits, isPrefix])
+  · have hp : writerPlace writerFiles .csv = some (["files"], ".csv") := by decide +kernel
+    refine ⟨⟨["files"] ++ pre, name, ".csv"⟩, by simp [pathFor, hp], ?_, by simp [outputName]⟩
+    apply mem_consumers_of_direct
+    have hl : (⟨"arrays", "rglob", ⟨["files"], "", ".csv"⟩⟩ : Lookup) ∈ readerLookups := by decide +kernel
+    exact mem_directConsumers hl (by simp [hits, isPrefix])
+  · have hp : writerPlace writerFiles .fits = some (["files"], ".fits") := by decide +kernel
+    refine ⟨⟨["files"] ++ pre, name, ".fits"⟩, by simp [pathFor, hp], ?_, by simp [outputName]⟩
+    apply mem_consumers_of_direct
+    have hl : (⟨"hdus", "rglob", ⟨["files"], "", ".fits"⟩⟩ : Lookup) ∈ readerLookups := by decide +kernel
+    exact mem_directConsumers hl (by simp [hits, isPrefix])
+
+/-- … and is stored: `_add_files` keeps every collected json, pickle and fits file, and every
+numeric table except those called `samples` / `latent_samples` (reserved for the samples). -/
+theorem reserved_array_names (ls : List Lookup) (files : List (FileRef × Bool)) (n : String) :
+    (n ∈ (dbFiles ls files).arrays ↔
+      (n, true) ∈ collected ls "arrays" files ∧ n ≠ "samples" ∧ n ≠ "latent_samples") ∧
+    (dbFiles ls files).jsons = (collected ls "jsons" files).map (·.1) ∧
+    (dbFiles ls files).pickles = (collected ls "pickles" files).map (·.1) ∧
+    (dbFiles ls files).hdus = (collected ls "hdus" files).map (·.1) := by
+  refine ⟨?_, rfl, rfl, rfl⟩
+  simp only [dbFiles, skippedArrays, List.mem_map, List.mem_filter, Bool.and_eq_true,
+    Bool.not_eq_true', Prod.exists]
+  constructor
+  · rintro ⟨a, b, ⟨hm, hb, hs⟩, rfl⟩
+    subst hb
+    refine ⟨hm, ?_, ?_⟩ <;> (intro h; subst h; simp at hs)
+  · rintro ⟨hm, h1, h2⟩
+    exact ⟨n, true, ⟨hm, rfl, by simp [h1, h2]⟩, rfl⟩
+
+example : (mustReach ⟨"save_all", ⟨["files"], "model", ".json"⟩⟩) = ["model", "samples", "jsons"] ∧
+    "child_analyses/jsons" ∈ consumers readerLookups ⟨["analyses", "analysis_1", "files"], "ca", ".json"⟩ ∧
+    consumers readerLookups ⟨["files"], "notes", ".txt"⟩ = [] := by decide +kernel
+
+example : (dbFiles readerLookups [(⟨["files"], "samples", ".csv"⟩, false), (⟨["files", "sub"], "ua", ".csv"⟩, true),
+    (⟨["files"], "uf", ".fits"⟩, false), (⟨["files", "a", "b"], "uj", ".json"⟩, false)]) =
+    { jsons := ["a.b.uj"], arrays := ["sub.ua"], pickles := [], hdus := ["uf"] } := by decide +kernel
+
+end files
 
 end AF.C11
